@@ -339,7 +339,8 @@ class Term:
         elif isinstance(other, Model):
             products = product([self], other.common_terms)
             iterms = [Term(*p[0].components, *p[1].components) for p in products]
-            return Model(*iterms)
+            # Model addition drops repeated terms, e.g. "x:y : (x + y)"
+            return Model() + Model(*iterms)
         else:  # pragma: no cover
             return NotImplemented
 
@@ -928,11 +929,13 @@ class Model:
         if isinstance(other, type(self)):
             products = product(self.common_terms, other.common_terms)
             iterms = [Term(*p[0].components, *p[1].components) for p in products]
-            return Model(*iterms)
+            # Model addition drops repeated terms, e.g. "(x + y) : (x:y + y)"
+            return Model() + Model(*iterms)
         elif isinstance(other, Term):
             products = product(self.common_terms, [other])
             iterms = [Term(*p[0].components, *p[1].components) for p in products]
-            return Model(*iterms)
+            # Model addition drops repeated terms, e.g. "(x + x:y) : y"
+            return Model() + Model(*iterms)
         else:  # pragma: no cover
             return NotImplemented
 
